@@ -505,6 +505,42 @@ def r6_file_provider(chk, F):
         k = cfg.operand_const(xs[fn_.index("announced_by_iers")])
         ok = k is not None and k.get("v") is True
     chk.ob(rule, "LeapSecondsFile::from_path", "rows-marked-announced", ok, "constant field of the aggregate")
+    # the timestamp column (seconds since 1900; the row's key in every look-up) must be read with a type that holds every timestamp
+    # the data type can carry - a 32-bit parse silently rejects rows dated after 2036.  Backward flow from the aggregate's field to the
+    # numeric parse it comes from (through casts, copies and the Ok payload of the parse result).
+    from .c09 import _all_defs
+    widths = []
+    for g in cone:
+        alld = _all_defs(g)
+
+        def parse_types(o, depth=0, alld=alld):
+            p_ = cfg.operand_place(o)
+            if p_ is None or depth > 14:
+                return set()
+            out = set()
+            for r_ in alld.get(p_["l"], []):
+                if r_["op"] == "call":
+                    nm_ = cfg.callee_name(r_["t"]["f"])
+                    if "lexical_core::parse::<" in nm_ or nm_.startswith("lexical_core::parse"):
+                        out.add(nm_.split("parse::<")[-1].split(">")[0].split(",")[0] if "parse::<" in nm_ else "?")
+                    else:
+                        for a_ in r_["t"]["args"]:
+                            out |= parse_types(a_, depth + 1)
+                elif r_["op"] in ("use", "cast"):
+                    out |= parse_types(r_["x"], depth + 1)
+                elif r_["op"] == "agg":
+                    for x_ in r_.get("xs", []):
+                        out |= parse_types(x_, depth + 1)
+            return out
+        for bi, si, s_ in cfg.stmts(g):
+            if s_["k"] == "a" and s_["r"]["op"] == "agg" and s_["r"].get("adt", "").endswith("LeapSecond"):
+                fn_ = s_["r"]["fnames"]
+                if "timestamp_tai_s" in fn_:
+                    widths.append(sorted(parse_types(s_["r"]["xs"][fn_.index("timestamp_tai_s")])))
+    wide = {"u64", "i64", "u128", "i128", "f64", "usize", "isize"}
+    okw = len(widths) == 1 and len(widths[0]) >= 1 and set(widths[0]) <= wide
+    chk.ob(rule, "LeapSecondsFile::from_path", "timestamp-column-read-with-at-least-64-bits", okw, "backward flow from the row's timestamp field to its numeric parse",
+           detail=None if okw else {"parse_types_reaching_timestamp_tai_s": widths})
     # columns 0 and 1, '#' lines skipped
     idx = []
     nexts = 0
